@@ -7,11 +7,12 @@ set -u
 export GOFLAGS=-mod=mod GOPROXY=off GOSUMDB=off GOTOOLCHAIN=local
 ID=$1; X=$2; shift 2
 CHECKS=${*:-$ID}
-OUT=/tmp/mut/$ID.out
+OUT=${SRC:-/tmp/mut/$ID.out}
+NAME=${NAME:-$X}
 PATCH=$OUT/$X.patch.diff
 DEMO=$OUT/${X}_demo_test.go
 [ -f "$PATCH" ] && [ -f "$DEMO" ] || { echo "missing $PATCH or $DEMO"; exit 3; }
-WT=/tmp/sc-$ID-$X
+WT=/tmp/sc-$ID-$NAME
 git -C /repo worktree remove --force $WT 2>/dev/null; rm -rf $WT
 git -C /repo worktree add -q --detach $WT HEAD || exit 3
 cleanup() { git -C /repo worktree remove --force $WT 2>/dev/null; rm -rf $WT; }
@@ -40,7 +41,7 @@ for c in $CHECKS; do
 done
 git -C /repo reset -q; git -C /repo checkout -q -- . ; git -C /repo status --short | head -3
 git -C /verif checkout -q -- evidence 2>/dev/null
-D=/verif/seeded/$ID-$X
+D=/verif/seeded/$ID-$NAME
 mkdir -p $D && cp "$PATCH" $D/patch.diff && cp "$DEMO" $D/demo_test.go
 python3 - "$OUT/$X.meta.json" "$D/meta.json" "$DET" "$CHECKS" <<'PY'
 import json,sys
@@ -52,4 +53,4 @@ m["checks_run"]=checks.split()
 m["detected_by"]=det.split()
 json.dump(m,open(dst,"w"),indent=1)
 PY
-echo "RESULT $ID-$X detected_by:${DET:- NONE}"
+echo "RESULT $ID-$NAME detected_by:${DET:- NONE}"
